@@ -219,47 +219,76 @@ func (s *solver) getModel(vars []*term) model {
 }
 
 func parseModel(s string, m model) {
-	// tokens: ( ( |name| value ) ... )
-	i := 0
-	n := len(s)
-	for i < n {
-		if s[i] != '|' {
+	// ((name value) (name value) ...) where name is |quoted| or bare and value
+	// is true/false/#x../#b../(_ bvN w)
+	i, n := 0, len(s)
+	skip := func() {
+		for i < n && (s[i] == ' ' || s[i] == '\n' || s[i] == '\t' || s[i] == '\r') {
 			i++
-			continue
 		}
-		j := strings.IndexByte(s[i+1:], '|')
-		if j < 0 {
+	}
+	skip()
+	if i < n && s[i] == '(' {
+		i++
+	}
+	for {
+		skip()
+		if i >= n || s[i] != '(' {
 			return
 		}
-		name := s[i+1 : i+1+j]
-		i = i + 1 + j + 1
-		for i < n && s[i] == ' ' {
-			i++
+		i++
+		skip()
+		var name string
+		if i < n && s[i] == '|' {
+			j := strings.IndexByte(s[i+1:], '|')
+			if j < 0 {
+				return
+			}
+			name = s[i+1 : i+1+j]
+			i = i + 1 + j + 1
+		} else {
+			k := i
+			for k < n && s[k] != ' ' && s[k] != ')' {
+				k++
+			}
+			name = s[i:k]
+			i = k
 		}
-		k := i
-		for k < n && s[k] != ')' && s[k] != ' ' {
-			k++
-		}
-		tok := s[i:k]
+		skip()
 		var v uint64
-		switch {
-		case tok == "true":
-			v = 1
-		case tok == "false":
-			v = 0
-		case strings.HasPrefix(tok, "#x"):
-			v, _ = strconv.ParseUint(tok[2:], 16, 64)
-		case strings.HasPrefix(tok, "#b"):
-			v, _ = strconv.ParseUint(tok[2:], 2, 64)
-		case strings.HasPrefix(tok, "(_"):
+		if i < n && s[i] == '(' {
 			// (_ bv123 8)
-			rest := s[i:]
 			var x uint64
 			var w int
-			fmt.Sscanf(rest, "(_ bv%d %d)", &x, &w)
+			fmt.Sscanf(s[i:], "(_ bv%d %d)", &x, &w)
 			v = x
+			k := strings.IndexByte(s[i:], ')')
+			if k < 0 {
+				return
+			}
+			i += k + 1
+		} else {
+			k := i
+			for k < n && s[k] != ')' && s[k] != ' ' {
+				k++
+			}
+			tok := s[i:k]
+			switch {
+			case tok == "true":
+				v = 1
+			case tok == "false":
+				v = 0
+			case strings.HasPrefix(tok, "#x"):
+				v, _ = strconv.ParseUint(tok[2:], 16, 64)
+			case strings.HasPrefix(tok, "#b"):
+				v, _ = strconv.ParseUint(tok[2:], 2, 64)
+			}
+			i = k
 		}
 		m[name] = v
-		i = k
+		skip()
+		if i < n && s[i] == ')' {
+			i++
+		}
 	}
 }
